@@ -4,7 +4,7 @@
    FuseDevWriter::async_write_all does nothing at all for an empty buffer, and
    FuseDevWriter::async_write_from_at places the file data according to [at_len] (Gen/AsyncTransport.v). *)
 From Coq Require Import List Arith NArith Bool Lia ZifyBool ZifyNat ZifyN Permutation.
-From FB Require Import Model.Transport Proofs.Transport Proofs.TransportMachine Proofs.TransportFuse.
+From FB Require Import Gen.AsyncTransport Model.Transport Proofs.Transport Proofs.TransportMachine Proofs.TransportFuse.
 Import ListNotations.
 Local Open Scope N_scope.
 Arguments N.add : simpl never.
@@ -112,6 +112,11 @@ Proof.
   - exfalso. apply H. apply async_fusedev_full_true.
   - apply async_fusedev_full_false.
 Qed.
+
+(* the placement read from the current source (Gen/AsyncTransport.v, regenerated every run) is "behind the bytes
+   already buffered" since the fix c67a85c: the full statement holds *)
+Lemma async_fusedev_full_now : async_fusedev_full async_wfrom_at_len.
+Proof. assert (async_wfrom_at_len = true) as -> by reflexivity. apply async_fusedev_full_true. Qed.
 
 (* what holds in any case: the async operation is the synchronous one whenever the target of an
    async_write_from_at has written nothing yet (the way the server uses it: a fresh split-off data writer) *)
